@@ -421,10 +421,10 @@ impl Check for C35 {
         "C35"
     }
     fn cases(&self, tier: Tier) -> u64 {
-        tier.pick(24_000, 1_200_000)
+        tier.pick(60_000, 1_400_000)
     }
     fn budget_s(&self, tier: Tier) -> u64 {
-        tier.pick(18, 330)
+        tier.pick(10, 330)
     }
     fn min_nontrivial(&self, tier: Tier) -> u64 {
         tier.pick(1000, 20_000)
